@@ -245,11 +245,20 @@ pub enum Shape {
     Tagged,
     /// the values as JSON object keys: `{"1.2.3":0,"2.0.0":1}`
     Keyed,
+    /// `Option<T>` holding the value: same JSON as the bare value, read through
+    /// `deserialize_option` / `visit_some`
+    Opt,
+    /// an untagged enum `{ Item(T), Count(u64) }`: serde buffers the input into `Content` and tries
+    /// each variant against a `ContentRefDeserializer`
+    Untagged,
+    /// a struct with `#[serde(flatten)]` around `{ "v": T }`: the value is read out of serde's
+    /// flat-map buffer
+    Flatten,
 }
 
 impl Shape {
     pub fn single(&self) -> bool {
-        matches!(self, Shape::One | Shape::Entry | Shape::Tagged)
+        matches!(self, Shape::One | Shape::Entry | Shape::Tagged | Shape::Opt | Shape::Untagged | Shape::Flatten)
     }
     pub fn name(&self) -> &'static str {
         match self {
@@ -258,6 +267,9 @@ impl Shape {
             Shape::Entry => "struct-field",
             Shape::Tagged => "tagged-enum",
             Shape::Keyed => "map-keys",
+            Shape::Opt => "option",
+            Shape::Untagged => "untagged-enum",
+            Shape::Flatten => "flattened-struct",
         }
     }
 }
